@@ -58,5 +58,7 @@ def op_route(world, op, cname=None):
 
 def _nested_class(world, op, cname):
     step = op["path"][0]
+    if step[1] not in world.attrs(cname):
+        return cname  # an unmanaged attribute holding another instance of the same class (e.g. a copy of itself)
     T = world.attrs(cname)[step[1]]["type"]
     return T[1] if T[0] == "spec" else grammar.elem_type(T)[1]
